@@ -238,6 +238,7 @@ func Load(repo string, patterns []string) (*Ctx, error) {
 						if obj := sp.Pkg.Scope().Lookup(tn); obj != nil {
 							if _, isIface := obj.Type().Underlying().(*types.Interface); isIface {
 								ctx.ifaceContracts[fc.PkgPath+"."+tn+"."+fc.Key[end+2:]] = fc
+								fc.IsIface = true
 								continue
 							}
 						}
@@ -257,6 +258,21 @@ func Load(repo string, patterns []string) (*Ctx, error) {
 		if fn := ctx.funcFor(fc); fn != nil {
 			sig = fn.Signature
 			name = fn.Name()
+		} else if fc.Kind == "func" && strings.HasPrefix(fc.Key, "(") {
+			end := strings.Index(fc.Key, ")")
+			tn := strings.TrimPrefix(fc.Key[1:end], "*")
+			if tp := ctx.typesPkg(fc.PkgPath); tp != nil && end+2 <= len(fc.Key) {
+				if obj := tp.Scope().Lookup(tn); obj != nil {
+					if it, ok := obj.Type().Underlying().(*types.Interface); ok {
+						for k := 0; k < it.NumMethods(); k++ {
+							if it.Method(k).Name() == fc.Key[end+2:] {
+								sig = it.Method(k).Type().(*types.Signature)
+								name = it.Method(k).Name()
+							}
+						}
+					}
+				}
+			}
 		} else if fc.Kind == "extern" {
 			// interface method: pkg.Iface.Method
 			if i := strings.LastIndex(fc.Key, "."); i > 0 {
